@@ -293,6 +293,10 @@ class QuicServerAdversary(_AdvBase):
         self.cfg = full
         super().__init__(full["version"])
         c_cfg, _ = netsim.make_configs(full)
+        if full.get("qlog"):
+            from aioquic.quic.logger import QuicLogger
+
+            c_cfg.quic_logger = QuicLogger()
         self.tickets = []
         conn = QuicConnection(configuration=c_cfg,
                               session_ticket_handler=self.tickets.append if ticket_handler else None)
@@ -400,6 +404,10 @@ class QuicClientAdversary(_AdvBase):
         self.cfg = full
         super().__init__(full["version"])
         _, s_cfg = netsim.make_configs(full)
+        if full.get("qlog"):
+            from aioquic.quic.logger import QuicLogger
+
+            s_cfg.quic_logger = QuicLogger()
         self.odcid = ADV_DCID
         self.dcid = ADV_DCID
         conn = (server_cls or QuicConnection)(configuration=s_cfg, original_destination_connection_id=self.odcid)
